@@ -575,3 +575,518 @@ impl FvFont {
         (kern, place)
     }
 }
+
+// =============================================================================================
+// Non-canonical (but accepted) layout encodings.
+//
+// `NcFont::new(seed)` builds a font whose GSUB and GPOS are valid for a forgiving reader but not
+// canonical: Coverage format 2 with range records out of glyph order / overlapping / adjacent
+// but unmerged / duplicated, Coverage format 1 unsorted or with duplicates, ClassDef format 2
+// with ranges out of order / overlapping, several subtables of one lookup covering the same
+// glyph, lookups listed in several features, feature records with equal tags, LangSys tables
+// with duplicate feature indices, PairSets not sorted by second glyph. There is no expected
+// output for such fonts; they exist for metamorphic checks (used font vs. fresh font), where
+// any per-object mutable state inside the reader (search hints, cursors, memoised "last
+// match") shows up as a difference.
+// =============================================================================================
+
+pub struct NcRng(pub u64);
+
+impl NcRng {
+    pub fn next(&mut self) -> u64 {
+        self.0 = self.0.wrapping_add(0x9e3779b97f4a7c15);
+        let mut z = self.0;
+        z = (z ^ (z >> 30)).wrapping_mul(0xbf58476d1ce4e5b9);
+        z = (z ^ (z >> 27)).wrapping_mul(0x94d049bb133111eb);
+        z ^ (z >> 31)
+    }
+    pub fn below(&mut self, n: usize) -> usize {
+        if n == 0 {
+            0
+        } else {
+            (self.next() % n as u64) as usize
+        }
+    }
+    pub fn chance(&mut self, percent: u32) -> bool {
+        self.next() % 100 < percent as u64
+    }
+    pub fn shuffle<T>(&mut self, v: &mut Vec<T>) {
+        for i in (1..v.len()).rev() {
+            let j = self.below(i + 1);
+            v.swap(i, j);
+        }
+    }
+    /// k distinct values out of lo..=hi (fewer if the interval is smaller)
+    pub fn subset(&mut self, lo: u16, hi: u16, k: usize) -> Vec<u16> {
+        let mut all: Vec<u16> = (lo..=hi).collect();
+        self.shuffle(&mut all);
+        all.truncate(k);
+        all.sort();
+        all
+    }
+}
+
+pub const NC_LETTERS: u16 = 40; // 'a'..'z' -> 1..=26, 'A'..'N' -> 27..=40
+pub const NC_ALT0: u16 = 41; // 41..=80: substitution outputs
+pub const NC_SPACE: u16 = 81;
+pub const NC_DOTTED_CIRCLE: u16 = 82;
+pub const NC_GLYPHS: u16 = 83;
+
+pub fn nc_alphabet() -> Vec<char> {
+    ('a'..='z').chain('A'..='N').collect()
+}
+
+fn runs_of(sorted: &[u16]) -> Vec<(u16, u16)> {
+    let mut out: Vec<(u16, u16)> = Vec::new();
+    for &g in sorted {
+        match out.last_mut() {
+            Some(l) if l.1 + 1 == g => l.1 = g,
+            _ => out.push((g, g)),
+        }
+    }
+    out
+}
+
+/// A coverage table over `glyphs` in a randomly chosen (mostly non-canonical) style. Returns the
+/// bytes and the size of the coverage-index space (= number of per-index records the owning
+/// subtable must provide).
+pub fn nc_coverage(rng: &mut NcRng, glyphs: &[u16]) -> (Vec<u8>, usize) {
+    let mut g: Vec<u16> = glyphs.to_vec();
+    g.sort();
+    g.dedup();
+    let mut b = Buf::new();
+    let style = rng.below(10);
+    if style < 3 {
+        // format 1: sorted / shuffled / with duplicates
+        if style >= 1 {
+            rng.shuffle(&mut g);
+        }
+        if style == 2 && !g.is_empty() {
+            let d = g[rng.below(g.len())];
+            let at = rng.below(g.len() + 1);
+            g.insert(at, d);
+        }
+        b.u16(1).u16(g.len() as u16);
+        for x in &g {
+            b.u16(*x);
+        }
+        return (b.into_vec(), g.len());
+    }
+    let mut rs: Vec<(u16, u16)> = runs_of(&g);
+    match style {
+        3 => {}
+        4 => rs.reverse(),
+        5 => rng.shuffle(&mut rs),
+        6 => {
+            // adjacent but unmerged: split every run longer than one glyph
+            let mut out = Vec::new();
+            for (a, e) in rs {
+                if e > a {
+                    let m = a + rng.below((e - a) as usize) as u16;
+                    out.push((a, m));
+                    out.push((m + 1, e));
+                } else {
+                    out.push((a, e));
+                }
+            }
+            rs = out;
+            if rng.chance(50) {
+                rng.shuffle(&mut rs);
+            }
+        }
+        7 => {
+            // overlapping: some ranges reach into their successor, one range spans several
+            let n = rs.len();
+            for i in 0..n.saturating_sub(1) {
+                if rng.chance(40) {
+                    rs[i].1 = rs[i + 1].0 + rng.below(2) as u16;
+                }
+            }
+            if n >= 2 && rng.chance(50) {
+                let i = rng.below(n - 1);
+                let span = (rs[i].0, rs[(i + 1 + rng.below(n - 1 - i)).min(n - 1)].1);
+                let at = rng.below(n + 1);
+                rs.insert(at, span);
+            }
+            if rng.chance(40) {
+                rng.shuffle(&mut rs);
+            }
+        }
+        8 => {
+            // duplicated records
+            if !rs.is_empty() {
+                let d = rs[rng.below(rs.len())];
+                let at = rng.below(rs.len() + 1);
+                rs.insert(at, d);
+            }
+            if rng.chance(50) {
+                rs.reverse();
+            }
+        }
+        _ => {
+            // one range per glyph, out of order
+            rs = g.iter().map(|x| (*x, *x)).collect();
+            rng.shuffle(&mut rs);
+        }
+    }
+    b.u16(2).u16(rs.len() as u16);
+    let mut idx = 0usize;
+    for (a, e) in &rs {
+        b.u16(*a).u16(*e).u16(idx as u16);
+        idx += (*e - *a) as usize + 1;
+    }
+    (b.into_vec(), idx)
+}
+
+/// ClassDef over `map` (glyph, class) in a randomly chosen style.
+pub fn nc_classdef(rng: &mut NcRng, map: &[(u16, u16)]) -> Vec<u8> {
+    let mut m: Vec<(u16, u16)> = map.to_vec();
+    m.sort();
+    m.dedup_by_key(|x| x.0);
+    let mut b = Buf::new();
+    if rng.chance(20) && !m.is_empty() {
+        let lo = m[0].0;
+        let hi = m[m.len() - 1].0;
+        b.u16(1).u16(lo).u16(hi - lo + 1);
+        for gl in lo..=hi {
+            b.u16(m.iter().find(|x| x.0 == gl).map(|x| x.1).unwrap_or(0));
+        }
+        return b.into_vec();
+    }
+    let mut rs: Vec<(u16, u16, u16)> = Vec::new();
+    for (gl, k) in &m {
+        match rs.last_mut() {
+            Some(l) if l.1 + 1 == *gl && l.2 == *k => l.1 = *gl,
+            _ => rs.push((*gl, *gl, *k)),
+        }
+    }
+    match rng.below(5) {
+        0 => {}
+        1 => rs.reverse(),
+        2 => rng.shuffle(&mut rs),
+        3 => {
+            // overlapping ranges with different classes
+            let n = rs.len();
+            for i in 0..n.saturating_sub(1) {
+                if rng.chance(50) {
+                    rs[i].1 = rs[i + 1].0;
+                }
+            }
+            if rng.chance(50) {
+                rng.shuffle(&mut rs);
+            }
+        }
+        _ => {
+            if !rs.is_empty() {
+                let mut d = rs[rng.below(rs.len())];
+                d.2 = 1 + rng.below(3) as u16;
+                let at = rng.below(rs.len() + 1);
+                rs.insert(at, d);
+            }
+            rs.reverse();
+        }
+    }
+    b.u16(2).u16(rs.len() as u16);
+    for r in &rs {
+        b.u16(r.0).u16(r.1).u16(r.2);
+    }
+    b.into_vec()
+}
+
+/// lookup list whose lookups have several self-contained subtables
+fn lookup_list_multi(lookups: &[(u16, Vec<Vec<u8>>)]) -> Vec<u8> {
+    let mut b = Buf::new();
+    b.u16(lookups.len() as u16);
+    let mut off = 2 + 2 * lookups.len();
+    for (_, subs) in lookups {
+        b.u16(off as u16);
+        off += 6 + 2 * subs.len() + subs.iter().map(|s| s.len()).sum::<usize>();
+    }
+    for (ty, subs) in lookups {
+        b.u16(*ty).u16(0).u16(subs.len() as u16);
+        let mut so = 6 + 2 * subs.len();
+        for s in subs {
+            b.u16(so as u16);
+            so += s.len();
+        }
+        for s in subs {
+            b.bytes(s);
+        }
+    }
+    b.into_vec()
+}
+
+fn nc_layout_table(scripts: &[ScriptModel], features: &[FeatureModel], lookups: &[(u16, Vec<Vec<u8>>)], fv: &[FvRecord]) -> Vec<u8> {
+    let sl = script_list(scripts);
+    let fl = feature_list(features);
+    let ll = lookup_list_multi(lookups);
+    let mut b = Buf::new();
+    let header = 14;
+    b.u16(1).u16(1);
+    b.u16(header as u16).u16((header + sl.len()) as u16).u16((header + sl.len() + fl.len()) as u16);
+    if fv.is_empty() {
+        b.u32(0);
+    } else {
+        b.u32((header + sl.len() + fl.len() + ll.len()) as u32);
+    }
+    b.bytes(&sl).bytes(&fl).bytes(&ll);
+    if !fv.is_empty() {
+        b.bytes(&feature_variations(fv));
+    }
+    b.into_vec()
+}
+
+fn nc_single_subst(rng: &mut NcRng, lo: u16, hi: u16) -> Vec<u8> {
+    let k = 3 + rng.below(12);
+    let cov_glyphs = rng.subset(lo, hi, k);
+    let (cov, space) = nc_coverage(rng, &cov_glyphs);
+    let mut b = Buf::new();
+    if rng.chance(30) {
+        b.u16(1).u16(6).i16(NC_LETTERS as i16);
+    } else {
+        b.u16(2).u16((6 + 2 * space) as u16).u16(space as u16);
+        for _ in 0..space {
+            b.u16(NC_ALT0 + rng.below(NC_LETTERS as usize) as u16);
+        }
+    }
+    b.bytes(&cov);
+    b.into_vec()
+}
+
+/// ContextSubst format 2 (class based): two-glyph rules calling `nested` lookups
+fn nc_context_subst(rng: &mut NcRng, nested: &[u16]) -> Vec<u8> {
+    let k = 4 + rng.below(10);
+    let cov_glyphs = rng.subset(1, NC_LETTERS, k);
+    let (cov, _) = nc_coverage(rng, &cov_glyphs);
+    let nclass = 3usize;
+    let k2 = 20 + rng.below(30);
+    let class_glyphs = rng.subset(1, NC_LETTERS * 2, k2);
+    let map: Vec<(u16, u16)> = class_glyphs.iter().map(|g| (*g, 1 + rng.below(nclass) as u16)).collect();
+    let cd = nc_classdef(rng, &map);
+    // class sets 0..=nclass, each with 1-2 rules
+    let mut sets: Vec<Vec<u8>> = Vec::new();
+    for _ in 0..=nclass {
+        let nrules = 1 + rng.below(2);
+        let mut rules: Vec<Vec<u8>> = Vec::new();
+        for _ in 0..nrules {
+            let mut r = Buf::new();
+            let second_class = rng.below(nclass + 1) as u16;
+            r.u16(2).u16(1).u16(second_class);
+            r.u16(rng.below(2) as u16).u16(nested[rng.below(nested.len())]);
+            rules.push(r.into_vec());
+        }
+        let mut s = Buf::new();
+        s.u16(rules.len() as u16);
+        let mut off = 2 + 2 * rules.len();
+        for r in &rules {
+            s.u16(off as u16);
+            off += r.len();
+        }
+        for r in &rules {
+            s.bytes(r);
+        }
+        sets.push(s.into_vec());
+    }
+    let header = 8 + 2 * sets.len();
+    let mut b = Buf::new();
+    b.u16(2).u16(header as u16).u16((header + cov.len()) as u16).u16(sets.len() as u16);
+    let mut off = header + cov.len() + cd.len();
+    for s in &sets {
+        b.u16(off as u16);
+        off += s.len();
+    }
+    b.bytes(&cov).bytes(&cd);
+    for s in &sets {
+        b.bytes(s);
+    }
+    b.into_vec()
+}
+
+fn nc_single_pos(rng: &mut NcRng) -> Vec<u8> {
+    let k = 4 + rng.below(20);
+    let cov_glyphs = rng.subset(1, NC_LETTERS * 2, k);
+    let (cov, space) = nc_coverage(rng, &cov_glyphs);
+    let mut b = Buf::new();
+    if rng.chance(25) {
+        b.u16(1).u16(8).u16(0x0004).i16(10 + rng.below(50) as i16);
+    } else {
+        b.u16(2).u16((8 + 2 * space) as u16).u16(0x0004).u16(space as u16);
+        for i in 0..space {
+            b.i16(10 * (i as i16 + 1));
+        }
+    }
+    b.bytes(&cov);
+    b.into_vec()
+}
+
+fn nc_pair_pos1(rng: &mut NcRng) -> Vec<u8> {
+    let k = 3 + rng.below(10);
+    let cov_glyphs = rng.subset(1, NC_LETTERS * 2, k);
+    let (cov, space) = nc_coverage(rng, &cov_glyphs);
+    let mut sets: Vec<Vec<u8>> = Vec::new();
+    for i in 0..space {
+        let ks = 2 + rng.below(6);
+        let mut seconds = rng.subset(1, NC_LETTERS * 2, ks);
+        if rng.chance(35) {
+            rng.shuffle(&mut seconds); // not sorted by second glyph
+        }
+        let mut s = Buf::new();
+        s.u16(seconds.len() as u16);
+        for (j, g2) in seconds.iter().enumerate() {
+            s.u16(*g2).i16(-(100 * (i as i16 + 1)) - j as i16);
+        }
+        sets.push(s.into_vec());
+    }
+    let header = 10 + 2 * sets.len();
+    let mut b = Buf::new();
+    b.u16(1).u16(header as u16).u16(0x0004).u16(0).u16(sets.len() as u16);
+    let mut off = header + cov.len();
+    for s in &sets {
+        b.u16(off as u16);
+        off += s.len();
+    }
+    b.bytes(&cov);
+    for s in &sets {
+        b.bytes(s);
+    }
+    b.into_vec()
+}
+
+fn nc_pair_pos2(rng: &mut NcRng) -> Vec<u8> {
+    let k = 6 + rng.below(20);
+    let cov_glyphs = rng.subset(1, NC_LETTERS * 2, k);
+    let (cov, _) = nc_coverage(rng, &cov_glyphs);
+    let c1 = 2 + rng.below(3);
+    let c2 = 2 + rng.below(3);
+    let k1 = 20 + rng.below(30);
+    let g1 = rng.subset(1, NC_LETTERS * 2, k1);
+    let m1: Vec<(u16, u16)> = g1.iter().map(|g| (*g, rng.below(c1) as u16)).filter(|x| x.1 != 0).collect();
+    let k2 = 20 + rng.below(30);
+    let g2 = rng.subset(1, NC_LETTERS * 2, k2);
+    let m2: Vec<(u16, u16)> = g2.iter().map(|g| (*g, rng.below(c2) as u16)).filter(|x| x.1 != 0).collect();
+    let cd1 = nc_classdef(rng, &m1);
+    let cd2 = nc_classdef(rng, &m2);
+    let header = 16 + 2 * c1 * c2;
+    let mut b = Buf::new();
+    b.u16(2).u16(header as u16).u16(0x0004).u16(0);
+    b.u16((header + cov.len()) as u16).u16((header + cov.len() + cd1.len()) as u16);
+    b.u16(c1 as u16).u16(c2 as u16);
+    for i in 0..c1 {
+        for j in 0..c2 {
+            b.i16(if i == 0 && j == 0 { 0 } else { -(7 * i as i16) - 50 * j as i16 });
+        }
+    }
+    b.bytes(&cov).bytes(&cd1).bytes(&cd2);
+    b.into_vec()
+}
+
+pub struct NcFont {
+    pub seed: u64,
+    pub bytes: Vec<u8>,
+    pub variable: bool,
+    pub gsub_feature_tags: Vec<Tag>,
+    pub gpos_feature_tags: Vec<Tag>,
+}
+
+impl NcFont {
+    pub fn new(seed: u64) -> NcFont {
+        let mut rng = NcRng(seed.wrapping_mul(0x2545F4914F6CDD1D) ^ 0xC03);
+        // ---- GSUB
+        let n_plain = 3 + rng.below(4);
+        let mut gsub_lookups: Vec<(u16, Vec<Vec<u8>>)> = Vec::new();
+        for _ in 0..n_plain {
+            let nsub = 1 + rng.below(3);
+            let (lo, hi) = if rng.chance(70) { (1, NC_LETTERS) } else { (1, NC_LETTERS * 2) };
+            gsub_lookups.push((1, (0..nsub).map(|_| nc_single_subst(&mut rng, lo, hi)).collect()));
+        }
+        let nested: Vec<u16> = (0..n_plain as u16).collect();
+        let n_ctx = 1 + rng.below(2);
+        for _ in 0..n_ctx {
+            let nsub = 1 + rng.below(2);
+            gsub_lookups.push((5, (0..nsub).map(|_| nc_context_subst(&mut rng, &nested)).collect()));
+        }
+        let (gsub_scripts, gsub_features, gsub_fv, variable) =
+            Self::nc_features(&mut rng, gsub_lookups.len(), &[*b"calt", *b"liga", *b"ccmp", *b"smcp", *b"rlig", *b"locl", *b"rvrn"]);
+        let gsub = nc_layout_table(&gsub_scripts, &gsub_features, &gsub_lookups, &gsub_fv);
+        // ---- GPOS
+        let n_pos = 3 + rng.below(4);
+        let mut gpos_lookups: Vec<(u16, Vec<Vec<u8>>)> = Vec::new();
+        for _ in 0..n_pos {
+            let nsub = 1 + rng.below(3);
+            match rng.below(3) {
+                0 => gpos_lookups.push((1, (0..nsub).map(|_| nc_single_pos(&mut rng)).collect())),
+                1 => gpos_lookups.push((2, (0..nsub).map(|_| nc_pair_pos1(&mut rng)).collect())),
+                _ => gpos_lookups.push((2, (0..nsub).map(|_| if rng.chance(70) { nc_pair_pos2(&mut rng) } else { nc_pair_pos1(&mut rng) }).collect())),
+            }
+        }
+        let (gpos_scripts, gpos_features, mut gpos_fv, _) = Self::nc_features(&mut rng, gpos_lookups.len(), &[*b"kern", *b"dist", *b"kern", *b"mark", *b"liga"]);
+        if !variable {
+            gpos_fv.clear();
+        }
+        let gpos = nc_layout_table(&gpos_scripts, &gpos_features, &gpos_lookups, &gpos_fv);
+        // ---- font
+        let mut f = BasicFont::with_glyphs(NC_GLYPHS);
+        for (i, c) in nc_alphabet().iter().enumerate() {
+            f.cmap.insert(*c as u32, 1 + i as u16);
+        }
+        f.cmap.insert(0x20, NC_SPACE);
+        f.cmap.insert(0x25CC, NC_DOTTED_CIRCLE);
+        f.extra.push((*b"GSUB", gsub));
+        f.extra.push((*b"GPOS", gpos));
+        if variable {
+            f.extra.push((*b"fvar", fvar_table(&[FvFont::axis()], &[], 0)));
+        }
+        let mut gt: Vec<Tag> = gsub_features.iter().map(|x| x.tag).collect();
+        gt.sort();
+        gt.dedup();
+        let mut pt: Vec<Tag> = gpos_features.iter().map(|x| x.tag).collect();
+        pt.sort();
+        pt.dedup();
+        NcFont { seed, bytes: f.build(), variable, gsub_feature_tags: gt, gpos_feature_tags: pt }
+    }
+
+    /// scripts, features (equal tags, shared lookups), optional feature variations
+    fn nc_features(rng: &mut NcRng, n_lookups: usize, tags: &[Tag]) -> (Vec<ScriptModel>, Vec<FeatureModel>, Vec<FvRecord>, bool) {
+        let nf = 4 + rng.below(4);
+        let mut features: Vec<FeatureModel> = Vec::new();
+        for _ in 0..nf {
+            let tag = tags[rng.below(tags.len())];
+            let nl = 1 + rng.below(3);
+            // lookups drawn with repetition: the same lookup is listed by several features, and
+            // sometimes twice by one feature
+            let lookups: Vec<u16> = (0..nl).map(|_| rng.below(n_lookups) as u16).collect();
+            features.push(FeatureModel { tag, lookups });
+        }
+        features.sort_by_key(|f| f.tag);
+        let langsys = |rng: &mut NcRng| -> Vec<u16> {
+            let k = 2 + rng.below(nf);
+            let mut v: Vec<u16> = (0..k).map(|_| rng.below(nf) as u16).collect(); // duplicates possible
+            if rng.chance(50) {
+                v.sort();
+            }
+            v
+        };
+        let scripts = vec![
+            ScriptModel { tag: *b"DFLT", default: Some(langsys(rng)), langs: vec![] },
+            ScriptModel { tag: *b"latn", default: Some(langsys(rng)), langs: vec![(*b"TRK ", langsys(rng))] },
+            ScriptModel { tag: *b"cyrl", default: Some(langsys(rng)), langs: vec![] },
+        ];
+        let variable = rng.chance(50);
+        let mut fv = Vec::new();
+        if variable {
+            let nrec = 1 + rng.below(2);
+            for r in 0..nrec {
+                let (lo, hi) = if r == 0 { (-16384, -4096) } else { (4096, 16384) };
+                let mut subs: Vec<(u16, Vec<u16>)> = Vec::new();
+                for fi in 0..nf as u16 {
+                    if rng.chance(50) {
+                        let nl = 1 + rng.below(2);
+                        subs.push((fi, (0..nl).map(|_| rng.below(n_lookups) as u16).collect()));
+                    }
+                }
+                fv.push(FvRecord { conditions: vec![(0, lo, hi)], substitutions: subs });
+            }
+        }
+        (scripts, features, fv, variable)
+    }
+}
